@@ -101,7 +101,7 @@ func (w *world) newStore() {
 }
 
 func Run(k *report.Check) {
-	k.Rule = "concurrent part: the acknowledgements of one checkpoint, optionally a duplicate acknowledgement and a racing CreateCheckpoint, each on a thread of its own against the real Store with a slow splitter, every schedule within the delay bound: exactly one publication and one splitter checkpoint per completed checkpoint, no acknowledgement of the assembly rejected, the newest snapshot present and complete, a checkpoint started by the racing call completable, ids growing across a restart. Sequential part: explicit-state search over the real snapshots.Store: events = CreateCheckpoint, CreateSavepoint, operator acknowledgement (sender in assembly or a foreign node; id in {pending-1, pending, pending+1}; duplicates), source-runner acknowledgement (same), restart of the store over the same storage; assemblies (1 operator,1 runner), (2,1), (2,2). Publishing runs to quiescence after every event. The store's in-memory state, CurrentCheckpoint, the files in storage (decoded) and the retained-checkpoint notifications are compared with a reference model after every event. States (store dump + files + model) are deduplicated. non-trivial = distinct states with a pending checkpoint that has at least one acknowledgement, or reached through a duplicate / mismatched / foreign acknowledgement"
+	k.Rule = "concurrent part: the acknowledgements of one checkpoint, optionally a duplicate acknowledgement and a racing CreateCheckpoint, each on a thread of its own against the real Store with a slow splitter, every schedule within the delay bound: exactly one publication and one splitter checkpoint per completed checkpoint, no acknowledgement of the assembly rejected, the newest snapshot present and complete, a checkpoint started by the racing call completable, ids growing across a restart. Sequential part: explicit-state search over the real snapshots.Store: events = CreateCheckpoint, CreateSavepoint, operator acknowledgement (sender in assembly or a foreign node; id in {pending-1, pending, pending+1}; duplicates), source-runner acknowledgement (same), restart of the store over the same storage, abandonment of the pending checkpoint (its id stays spent); assemblies (1 operator,1 runner), (2,1), (2,2). Publishing runs to quiescence after every event. The store's in-memory state, CurrentCheckpoint, the files in storage (decoded) and the retained-checkpoint notifications are compared with a reference model after every event. States (store dump + files + model) are deduplicated. non-trivial = distinct states with a pending checkpoint that has at least one acknowledgement, or reached through a duplicate / mismatched / foreign acknowledgement"
 	k.Assumptions = []string{"in-memory StorageLocation with lexicographic listing", "publication goroutines are awaited after every event (their interleavings are C13's subject)"}
 	k.Budget(100, 900)
 	p := params{depth: k.Pick(14, 24)}
@@ -140,7 +140,7 @@ func body(c *mc.Ctx) {
 		senders := 1 + len(w.ops) // + ghost
 		srSenders := 1 + len(w.srs)
 		nOpAck, nSrAck := senders*3, srSenders*3
-		op := c.Choose(1 + 2 + nOpAck + nSrAck + 1)
+		op := c.Choose(1 + 2 + nOpAck + nSrAck + 2)
 		base := w.m.counter
 		if w.m.pend != nil {
 			base = w.m.pend.id
@@ -246,6 +246,13 @@ func body(c *mc.Ctx) {
 					}
 				}
 			}
+		case op == 2+nOpAck+nSrAck+2:
+			// what the job does when a new assembly starts: the unfinished checkpoint of the lost
+			// assembly is given up; its id is spent (a late acknowledgement for it must not fit a
+			// later checkpoint)
+			c.Op("AbandonPendingCheckpoint")
+			w.store.AbandonPendingCheckpoint()
+			w.m.pend = nil
 		default:
 			c.Op("Restart")
 			w.newStore()
